@@ -190,6 +190,8 @@ impl Http3Codec {
                     let _ = self.on_stream_reset(stream_id, reset_code);
                 }
                 let _ = self.on_stream_shutdown(stream_id, None);
+                // from here on the source learns of the reset from its own flag
+                self.socket.forget_stream_reset(stream_id);
                 Ok(None)
             }
         }
@@ -431,6 +433,18 @@ impl pipe::Source for StreamSource {
                         ));
                     }
                     if self.socket.stream_finished(self.stream_id) {
+                        // the HTTP/3 layer may not have said that the stream was reset, or the
+                        // codec may not have handled it yet: the connection is asked first, the
+                        // flag again after it (the codec raises the flag before the connection
+                        // forgets the reset)
+                        if self.socket.stream_reset_by_peer(self.stream_id)
+                            || self.reset_by_client.load(Ordering::Acquire)
+                        {
+                            return Err(io::Error::new(
+                                ErrorKind::ConnectionReset,
+                                "Stream reset by client",
+                            ));
+                        }
                         return Ok(pipe::Data::Eof);
                     } else {
                         match self.readable_event_rx.recv().await {
